@@ -14,6 +14,7 @@ From Coq Require Import List ZArith Permutation Sorting.
 From TskVerif Require Import Base.Common Gen.Generated C12.Model C12.BytesProofs C12.Unfold C12.ShapeProofs C12.RoundTripProofs
   C12.LayoutProofs C12.OrderProofs C12.ExhaustProofs C12.ValidProofs C12.JsonProofs C12.NormProofs
   C12.StringProofs C12.TotalProofs C12.NumpyProofs C12.TextProofs C12.RowView C12.RowViewProofs.
+From TskVerif Require Import C12.Injective.
 Import ListNotations.
 Open Scope Z_scope.
 
@@ -353,3 +354,19 @@ Theorem json_defaults_union : forall defaults kv k,
   lookup k (json_fill defaults kv) =
   match lookup k kv with Some x => Some x | None => lookup k defaults end.
 Proof. exact json_fill_lookup. Qed.
+
+(* ---- injectivity of the struct codec (corollaries of struct_roundtrip): two valid objects with
+   the same encoding have the same normal form; encodings of valid objects are prefix-free
+   (decode consumes exactly its own bytes whatever follows) ---- *)
+Theorem encode_injective : forall round32 widen32 s v1 v2 bs,
+  rt_ok s = true -> shape_ok s = true -> valid s v1 = true -> valid s v2 = true ->
+  encode round32 s v1 = EOk bs -> encode round32 s v2 = EOk bs ->
+  norm round32 widen32 s v1 = norm round32 widen32 s v2.
+Proof. exact encode_injective_proof. Qed.
+
+Theorem encode_prefix_free : forall round32 widen32 s v1 v2 b1 b2 r1 r2,
+  rt_ok s = true -> shape_ok s = true -> valid s v1 = true -> valid s v2 = true ->
+  encode round32 s v1 = EOk b1 -> encode round32 s v2 = EOk b2 ->
+  b1 ++ r1 = b2 ++ r2 ->
+  r1 = r2 /\ b1 = b2 /\ norm round32 widen32 s v1 = norm round32 widen32 s v2.
+Proof. exact encode_prefix_free_proof. Qed.
